@@ -454,6 +454,31 @@ def run(ctx):
              scls.methods["_generate_static_instances"].loc(), why_fail=f"{tags0}")
     ids0, _tr0 = registered(so0, {"data": "/data"})
     r1.check(not ids0, "registration guard", "choice texts are registered only under the same requires_itext atom", scls.methods["_setup_translations"].loc(), why_fail=f"{sorted(ids0)}")
+    # the in-line items of a search() select: redirect, then build the control, with the atom false and true.  Every
+    # jr:itext reference an item label carries must be a registered id (none is registered when the atom is false).
+    for atom in (False, True):
+        opts_s = tuple(_mk(ctx, ocls, f"o{i}", label=({"en": f"L{i}"} if atom else f"L{i}"), media=None) for i in range(2))
+        iset_s = Obj(icls, {"name": "ls", "options": opts_s, "requires_itext": atom, "used_by_search": False}, name="itemset_s")
+        so_s = survey_obj([], choices={"ls": iset_s})
+        el_s = _mk(ctx, mq, "s1", control={"appearance": "search('x')"}, itemset="ls", choices=iset_s, list_name="ls", type="select one", bind={"type": "string"},
+                   label="S", choice_filter=None, parameters=None)
+        its = ctx.interp("C07.R1", hooks={"fnname:node": node_hook, "fnname:_build_xml": lambda i, a, k, n: NodeVal("select1"),
+                                           "fnname:insert_output_values": lambda i, a, k, n: (a[-2] if len(a) >= 2 else a[0], False)})
+        its.reset([])
+        try:
+            its.call_function(scls.methods["_redirect_is_search_itext"], [so_s], {"element": el_s}, None, None)
+            ctl = its.call_function(mb, [el_s], {"survey": so_s}, None, mb.node)
+            labels = [ch for item in (ctl.children if isinstance(ctl, NodeVal) else []) if isinstance(item, NodeVal) and item.tag == "item"
+                      for ch in item.children if isinstance(ch, NodeVal) and ch.tag == "label"]
+            refs_s = [str(l.attrs.get("ref")) for l in labels if l.attrs.get("ref")]
+            err = None
+        except Raised as e:
+            refs_s, labels, err = [], [], f"raises {e.exc_name}{e.exc_args}"
+        ids_s, _tr_s = registered(so_s, {"data": "/data"})
+        dangling = [r_ for r_ in refs_s if r_.replace("jr:itext('", "").replace("')", "") not in ids_s]
+        r1.check(err is None and len(labels) == 2 and not dangling and (bool(refs_s) == atom), f"search() in-line items[requires_itext={atom}]",
+                 "item labels reference itext exactly when the list's texts are registered; otherwise the label text is written in-line", mb.loc(),
+                 why_fail=err or f"label refs {refs_s} registered ids {sorted(ids_s)}")
     rules.append(r1)
 
     # ------------------------------------------------------------------ R6 traversal coverage
@@ -485,4 +510,71 @@ def run(ctx):
         r6.check(covered, f"class {ci.name}", "instances are visited by _setup_translations/_setup_media (Question | Section traversal)", ci.module.relpath,
                  why_fail="emits jr:itext via xml_label but is neither a Question nor a Section, and the collectors do not iterate into section items")
     rules.append(r6)
+    rules.append(_tree_rule(ctx))
     return rules
+
+
+ITEXT_TREES = {
+    "same name in two groups, media-only labels": ("data", [("g", "g1", [("q", "photo", {"label": None, "media": {"image": "a.png"}})]),
+                                                            ("g", "g2", [("q", "photo", {"label": None, "media": {"image": {"en": "b.png"}}})])]),
+    "same name in two groups, translated labels": ("data", [("g", "g1", [("q", "age", {"label": {"en": "Age", "fr": "Âge"}})]),
+                                                            ("r", "r1", [("q", "age", {"label": {"en": "Age 2"}, "hint": {"en": "H"}})])]),
+    "group and question share a name across levels": ("data", [("g", "visit", [("q", "date", {"label": {"en": "D"}})], {"label": {"en": "Visit"}}),
+                                                                ("g", "g2", [("q", "visit", {"label": {"en": "Visit?"}, "media": {"audio": "v.mp3"}})])]),
+    "nested groups and a repeat, every element translated": ("data", [("g", "a", [("g", "b", [("q", "c", {"label": {"en": "C"}, "guidance_hint": {"en": "G"}, "hint": {"en": "h"}})], {"label": {"en": "B"}})], {"label": {"en": "A"}}),
+                                                                     ("r", "r", [("q", "d", {"label": "plain", "media": {"video": "d.mp4"}})], {"label": {"en": "R"}})]),
+}
+
+
+def _tree_rule(ctx):
+    """emit => register on whole trees, with the real traversals and the real path function (no per-element stubs): the
+    name map, the two collectors and every element's label / hint emitters are evaluated on small trees in which names
+    repeat across groups; every jr:itext id emitted anywhere in the tree must be a registered text id."""
+    from .. import trees
+    r = Rule("C07", "C07.R7", "emit => register on whole trees (names repeated across groups, media-only labels)", floor=12,
+             necessary="a collector that reaches elements by name (or skips some) leaves the references of the others dangling")
+    repo = ctx.repo
+    scls = repo.cls("pyxform.survey:Survey")
+    se = repo.cls("pyxform.survey_element:SurveyElement")
+    hooks = {k: v for k, v in _hooks({}).items() if k != "fnname:get_xpath"}
+    for tname, spec in ITEXT_TREES.items():
+        survey, _by, everything = trees.build(ctx, spec, {"default_language": "default", "choices": None})
+        it = ctx.interp("C07.R7", hooks=hooks)
+        it.reset([])
+        rd = it.call(it.module_global(repo.module("pyxform.survey"), "recursive_dict"), [], {}, None)
+        survey.attrs["_translations"] = rd
+        try:
+            it.call_function(scls.methods["_setup_xpath_dictionary"], [survey], {}, None, None)
+            it.call_function(scls.methods["_setup_translations"], [survey], {}, None, None)
+            it.call_function(scls.methods["_setup_media"], [survey], {}, None, None)
+        except Raised as e:
+            r.fail(f"tree[{tname}]", f"name map and collectors evaluate ({e.exc_name}{e.exc_args})", scls.methods["_setup_media"].loc())
+            continue
+        ids = set()
+        for _lang, d in survey.attrs["_translations"].items():
+            ids |= set(d.keys())
+        for el in everything:
+            path = "/".join(x.name for x in reversed([el] + _ancestors(el)))
+            try:
+                if el.attrs.get("children") is None:
+                    nodes = it.call_function(se.methods["xml_label_and_hint"], [el], {"survey": survey}, None, None)
+                else:
+                    nodes = [it.call_function(se.methods["xml_label"], [el], {"survey": survey}, None, None)]
+            except Raised as e:
+                if "PyXFormError" in e.mro:
+                    continue
+                r.fail(f"tree[{tname}] /{path}", f"emitters evaluate ({e.exc_name}{e.exc_args})", "pyxform/survey_element.py")
+                continue
+            em = _emitted([n for n in nodes if n is not None])
+            r.check(em <= ids, f"tree[{tname}] /{path}", "every itext id this element's label / hint references is registered", scls.methods["_setup_media"].loc(),
+                    why_fail=f"dangling {sorted(em - ids)}; registered {sorted(ids)[:6]}")
+    return r
+
+
+def _ancestors(el):
+    out = []
+    p = el.attrs.get("parent")
+    while p is not None:
+        out.append(p)
+        p = p.attrs.get("parent")
+    return out
